@@ -171,6 +171,20 @@ def step (line : String) : String :=
       else if leak != "0" then s!"FAIL {leak} library goroutine(s) left after Close from the signal arm"
       else "ok"
     s!"quit-ok leak=0\t{out} leak={leak}\t{verdict}"
+  | "sigsuspend" :: _ =>
+    -- the application's Suspend concurrent with Close from the kill-signal arm (F210 repaired: the LTS
+    -- has both callers at once, Suspend's critical section under `suspLock`; every run completes)
+    -- `ok-unserved`: the signal arrived after the input goroutine had left its select; nobody serves it
+    -- (a state of rest of the LTS: `killSig` pending, `ipc = done`), Suspend returned: same canonical value
+    let out := if fi.headD "?" == "ok-unserved" then "ok" else fi.headD "?"
+    let leak := (kv fi "leak").getD "?"
+    let verdict :=
+      if out == "suspend-hang" then "FAIL Suspend concurrent with a Close from the kill-signal arm never returns"
+      else if out == "quit-hang" then "FAIL Close from the kill-signal arm concurrent with Suspend never completes"
+      else if out != "ok" then s!"FAIL Suspend concurrent with a Close from the kill-signal arm: {impl}"
+      else if leak != "0" then s!"FAIL {leak} library goroutine(s) left after Suspend concurrent with Close"
+      else "ok"
+    s!"ok leak=0\t{out} leak={leak}\t{verdict}"
   | "dblclose" :: _ =>
     let out := fi.headD "?"
     let verdict := if out == "close-ok" then "ok" else s!"FAIL concurrent Close calls: {out}"
